@@ -155,6 +155,8 @@ def expected_elements(g, fl, i, j):
         if isinstance(a, ast.arguments):
             return None
     v = getattr(a, fl, None)
+    if isinstance(v, list) and v and isinstance(v[0], str):
+        return [ast.Name(id=x, ctx=ast.Load()) for x in v[i:j]]      # identifiers (Global / Nonlocal names) come out as Names
     return v[i:j] if isinstance(v, list) else None
 
 
@@ -203,6 +205,11 @@ TARGETED_SEQ_PROGS += ['Ã© = b = 1\n', 't = ("Ã©", Ã¼,)\n', 'match x:\n case ("Ã
                        'with Ã© as Ã¼, b as c: pass\n', 'import Ã©, b\n', 'from m import Ã©, b\n', 'def g():\n    global Ã©, b\n', 'x = {Ã©: "Ã¼", b: c,}\n', 'v = Ã© < "Ã¼" < b\n', 'v = Ã© and "Ã¼" and b\n',
                        'match x:\n case {"Ã©": Ã¼, "b": c,}: pass\n', 'match x:\n case C("Ã©", Ã¼=b,): pass\n', 'match x:\n case "Ã©" | "Ã¼" | b: pass\n', 'type T[Ã‰, Ãœ,] = int\n',
                        'x = [i for i in Ã© if "Ã¼" if b]\n', 'x = a["Ã©", Ã¼,]\n', '"Ã©"; Ã© = b = c = 1\n', 'x = {"Ã©", Ã¼,}\n', 'x = {"Ã©", Ã¼,}; y = [Ã©, b,]\n']
+# identifiers written un-normalized (the tree holds their NFKC form, which is shorter than the source text)
+TARGETED_SEQ_PROGS += ['def g():\n    global \ufb01, b, \ufb02\n', 'def g():\n    def h():\n        nonlocal a, \ufb01, b\n', 'import \ufb01, b, \ufb02.c as \ufb03\n', 'from m import (\ufb01 as \ufb02, b, \ufb03)\n',
+                       'def f(\ufb01, \ufb02=1, *\ufb03, \ufb00, **\ufb04): pass\n', 'class C(\ufb01, k=\ufb02): pass\n', 'del \ufb01, b, \ufb02\n', 'with \ufb01 as \ufb02, b as \ufb03: pass\n',
+                       'match x:\n case {1: \ufb01, 2: b, **\ufb02}: pass\n', 'match x:\n case C(\ufb01, \ufb02=1, \ufb03=b): pass\n', 'type T[\ufb01, *\ufb02, **\ufb03] = int\n', '\ufb01 = \ufb02 = b = 1\n',
+                       'f(\ufb01, \ufb02=1, *\ufb03)\n', 'match x:\n case [\ufb01, *\ufb02, b]: pass\n', 'match x:\n case \ufb01.a | \ufb02.b | c.d: pass\n']
 # an or-pattern / operand chain inside a parent that goes on for another line: the parent's end column on the later line takes every value around the column where the inner
 # node ends after the removal (positions are fixed up by comparing with the old end)
 TARGETED_SEQ_PROGS += [f'match x:\n    case [a | b | c,\n{" " * 10}{"d" * w}]:\n        pass\n' for w in range(1, 12)]
@@ -225,6 +232,8 @@ def targeted_seq_cases():
                                                                                                                                 'posonlyargs', 'kwonlyargs') or (fl == 'values' and isinstance(h.a, ast.BoolOp))]
             if type(h.a) in virt:
                 fields = [fl for fl in fields if fl not in ('args', 'keywords', 'bases', 'patterns')] + [virt[type(h.a)]]
+            if isinstance(h.a, (ast.Global, ast.Nonlocal)):
+                fields = ['names']      # identifiers, sliced as Names
             for fl in fields:
                 try:
                     n = len(getattr(h, fl))
